@@ -26,11 +26,11 @@ ASSUMPTIONS = [
     "symbolic results are compared after sympy.expand/Poly with symbols identified by name",
 ]
 
-QUICK = ["sys3_q", "sys2_q", "orders_q", "frac_q", "hist_q", "zero_q", "half_q"]
+QUICK = ["sys3_q", "sys2_q", "orders_q", "hist_q", "zero_q", "half_q"]
 THOROUGH = ["sys3_t", "sys2_t", "cstr_t", "orders_t", "frac_t", "phase_t", "feedmap_t", "hist_t", "zero_t", "half_t"]
 # coverage (vacuity guard) is read on the small slice that takes all three generator actions
 ACTIONS = {
-    "frac_q": ["GenAdd", "SetState", "Feed"],
+    "half_q": ["GenAdd", "SetState", "Feed"],
     "frac_t": ["GenAdd", "SetState", "Feed"],
 }
 
@@ -275,7 +275,7 @@ def run(ctx):
     # every terminal state of every slice is replayed (no sampling)
     ctx.exhaustive = True
     # code -> spec: seeded systems and the calls of the repository's own tests, validated in one batch
-    t1, judge1 = _trace_direction(ctx, 500 if ctx.quick else 10000)
+    t1, judge1 = _trace_direction(ctx, 300 if ctx.quick else 6000)
     t2, judge2 = _suite_direction(ctx)
     verdicts = ctx.validate_traces("KineticsTrace", "KineticsTrace.cfg", t1 + t2)
     judge1(verdicts[:len(t1)])
